@@ -115,9 +115,8 @@ func (run *FuncRun) enterLoopHeader(st *State, b *ssa.BasicBlock, ord int) bool 
 		}
 		fr.loopEntry[b.Index] = le
 		fr.loopAssign[b.Index] = as
-		if hs.all {
-			fail("%s: loop %s has an assigns clause but calls code without a frame", run.key, lname)
-		}
+		// (the loop's assigns clause is what is assumed here; it is checked
+		// against the callees' actual frames at every back edge)
 		// components the loop body cannot touch (statically) keep their version
 		st.newEpochKeeping(le, as, func(name string) bool {
 			if _, ok := hs.comps[name]; ok {
